@@ -146,6 +146,10 @@ class Server:
         resp = {"jsonrpc": "2.0", "id": rid, "result": {"echo": body.get("method"), "text": TEXT}}
         d = mode.get("delay", 0.1)
         m = mode["mode"]
+        if m.endswith("_error"):
+            # the answer on the event stream is a JSON-RPC error response
+            resp = {"jsonrpc": "2.0", "id": rid, "error": {"code": -32602, "message": "bad " + TEXT, "data": {"k": None}}}
+            m = m[:-len("_error")]
         if m == "200_body":
             return httpx.Response(200, json=resp)
         if m == "200_error_body":
@@ -188,7 +192,8 @@ class Server:
             f.cancel()
 
 
-REQUEST_MODES = ["200_body", "200_error_body", "202_then_event", "event_then_202", "202_silence", "status_500",
+REQUEST_MODES = ["200_body", "200_error_body", "202_then_event", "event_then_202", "202_then_event_error",
+                 "event_then_202_error", "202_silence", "status_500",
                  "status_404_json", "status_400_jsonrpc", "exception", "read_timeout", "200_garbage"]
 IDS = [1, 0, "abc", "123", 2**53 + 1]
 
@@ -208,7 +213,7 @@ def gen_cases(ctx):
     for mode in REQUEST_MODES:
         for rid in IDS:
             for d in (0.0, 0.1, TIMEOUT - 0.01):
-                if mode not in ("202_then_event", "event_then_202") and d != 0.1:
+                if mode not in ("202_then_event", "event_then_202", "202_then_event_error", "event_then_202_error") and d != 0.1:
                     continue
                 yield {"est": {"kind": "path"}, "requests": [{"id": rid, "mode": mode, "delay": d}], "exit": "normal"}
     # --- sequences of modes (sender survives) -------------------------------------
@@ -274,10 +279,13 @@ async def scenario(case: Dict[str, Any], srv: Server, obs: Dict[str, Any]):
                     if case["exit"] == "exception_in_flight":
                         await asyncio.sleep(0.01)
                         raise RuntimeError("body failed while request in flight")
-                    await asyncio.sleep(TIMEOUT + 1.5 if req["mode"] in ("202_silence", "202_then_event", "event_then_202")
+                    await asyncio.sleep(TIMEOUT + 1.5 if req["mode"] in ("202_silence", "202_then_event", "event_then_202",
+                                                                         "202_then_event_error", "event_then_202_error")
                                         and (req["mode"] == "202_silence" or req.get("delay", 0) > 1) else 1.5)
                 if case.get("server_msgs"):
                     await asyncio.sleep(2.0)
+                if any("202" in r["mode"] for r in case.get("requests", [])):
+                    await asyncio.sleep(TIMEOUT + 1.0)   # a wrongly pending request would time out here
                 if case["exit"] == "exception":
                     raise RuntimeError("body failed")
             finally:
